@@ -38,8 +38,8 @@ def comps(tier):
             p = X.shape[0] if dname == "QuadraticSVC" else X.shape[1]
             grouped = (dname in ("QuadraticGroup", "LogisticGroup")) or pname in ("WeightedGroupL2", "WeightedL1GroupL2")
             lays = LAYOUTS[X.shape[1]] if grouped else [None]
-            if tier == "quick" and xid == "wide3x5" and not grouped:
-                continue
+            if tier == "quick" and xid == "wide3x5" and not grouped and dname != "QuadraticSVC":
+                continue          # (the SVC dual is kept: its design is transposed, n_features > n_samples only happens on the wide shape)
             for li, lay in enumerate(lays):
                 comp = dict(base, X=X.tolist(), y=y.tolist(), xid=xid)
                 ps = c13.pspec_for(pname, p)
